@@ -374,6 +374,9 @@ class SFTPFile(BufferedFile):
         attr = SFTPAttributes()
         attr.st_size = size
         self.sftp._request(CMD_FSETSTAT, self.handle, attr)
+        if self._flags & self.FLAG_APPEND:
+            # appending continues from the new end of the file
+            self._size = size
 
     def check(self, hash_algorithm, offset=0, length=0, block_size=0):
         """
